@@ -2139,6 +2139,42 @@ def gen_paused_recipient_stopped(seed, mode="loop"):
     return sc
 
 
+def gen_tb_refused_ownership(seed, mode="loop"):
+    """C18: registrations that hand something over to the library (a descriptor to close automatically, a user pointer to
+    free automatically) are refused for lack of a token: the caller keeps what it handed in - the descriptor stays open, the
+    pointer allocated - and the same registration succeeds once the limit is lifted"""
+    r = random.Random(seed * 197 + 173)
+    sc = Sc(mode, "refused registrations carrying auto-close / auto-free seed=%d" % seed)
+    driven_skeleton(sc)
+    T, K = 1, 2
+    sc.mod(T, "throttled", 0, 0)
+    sc.mod(K, "sink", 0, 0)
+    sc.cb(T, "evt", "*", [])
+    sc.cb(K, "evt", "*", [])
+    sc.main += [("reg", T), ("reg", K), ("start", T), ("start", K)]
+    sc.main += [("fd_open", 1, 0, 0), ("fd_open", 2, 0, 0), ("fd_open", 3, 1, 0)]
+    sc.meta["max_ufd"] = 5
+    sc.meta["tb_probes"] = [(T, 0)]
+    burst = r.randrange(1, 4)
+    tp = sc.topic("alpha")
+    spend = [r.choice([("bsize", T, 0), ("tell", T, K, sc.pay(), 0), ("unsub", T, tp)]) for _ in range(burst + 2)]
+    owning = [("fd_reg", T, 1, SRC_FD_AUTOCLOSE, sc.ud()),
+              ("fd_reg", T, 2, SRC_FD_AUTOCLOSE | SRC_DUP, sc.ud()),
+              ("fd_reg", T, 3, SRC_AUTOFREE, sc.ud()),
+              ("tmr_reg", T, 5000000, SRC_AUTOFREE, sc.ud(), 0),
+              ("sgn_reg", T, 12, SRC_AUTOFREE, sc.ud()),
+              ("sub", T, sc.topic("beta"), SRC_AUTOFREE, sc.ud())]
+    r.shuffle(owning)
+    owning = owning[:r.randrange(2, len(owning) + 1)]
+    steps = [[], [("tb", T, 1, burst)] + spend + owning + [("srclen", T)], []]
+    # limit lifted: the very same registrations are accepted now (their descriptors are still open)
+    steps.append([("tb", T, 0, 0)] + owning + [("srclen", T)])
+    steps += [[], []]
+    driven_finish(sc, steps, rng=r)
+    finalize_main(sc)
+    return sc
+
+
 _M64 = (1 << 64) - 1
 
 
